@@ -976,6 +976,27 @@ def vpsHrdLoop (cfg : Cfg) (maxSub : Nat) : Nat → Nat → P (List (Nat × Nat 
     let rest ← vpsHrdLoop cfg maxSub n (i + 1)
     pure ((idx, cprms, h) :: rest)
 
+/-- vps_timing_info_present_flag … hrd_parameters: (flag, num_units_in_tick, time_scale, poc_proportional flag,
+    num_ticks_poc_diff_one_minus1, vps_num_hrd_parameters, entries) -/
+def vpsTiming (cfg : Cfg) (msl : Nat) : P (Nat × Nat × Nat × Nat × Nat × Nat × List (Nat × Nat × Hrd)) := do
+  let ti ← readBit
+  if ti = 1 then do
+    let n ← readU 32 32
+    let t ← readU 32 32
+    let pp ← readBit
+    let nt ← (if pp = 1 then readUe else pure 0)
+    let nh ← readUe16
+    let hs ← vpsHrdLoop cfg msl nh 0
+    pure (ti, n, t, pp, nt, nh, hs)
+  else pure (ti, 0, 0, 0, 0, 0, [])
+
+/-- sub-layer ordering info of the VPS (the loop starts at 0 when the flag is 1, at max otherwise): (flag, entries 0 … max) -/
+def vpsOrdering (cfg : Cfg) (msl : Nat) : P (Nat × List Ordering) := do
+  let oflag ← readBit
+  let start := if oflag = 1 then 0 else msl
+  let read ← orderingLoop cfg (msl + 1 - start) start
+  pure (oflag, orderingArrays oflag msl start read)
+
 def vpsBits (cfg : Cfg) : P RawVps := do
   let nal ← nalHeader
   if nal.nalUnitType ≠ cfg.nalVps then fail errNotSps else
@@ -988,10 +1009,7 @@ def vpsBits (cfg : Cfg) : P RawVps := do
   if msl = 0 ∧ nest ≠ 1 then fail errNesting else
   skip 16
   let p ← ptl msl
-  let oflag ← readBit
-  let start := if oflag = 1 then 0 else msl
-  let read ← orderingLoop cfg (msl + 1 - start) start
-  let ordering := orderingArrays oflag msl start read
+  let (oflag, ordering) ← vpsOrdering cfg msl
   let mli ← readU 6 8
   let nls ← readUe16
   -- `make([][HEVC_MAX_LAYERS]uint8, nls+1)` in uint16: 65535+1 wraps to an empty slice, every row access panics
@@ -1000,16 +1018,7 @@ def vpsBits (cfg : Cfg) : P RawVps := do
   -- row 0: `[0][j] = 1; if j == 0 { [0][j] = 0 }` for j ≤ vps_max_layer_id, on a row of HEVC_MAX_LAYERS
   if mli ≥ cfg.maxLayers then fail .panic else
   let row0 := 0 :: List.replicate mli 1
-  let ti ← readBit
-  let (n, t, pp, nt, nh, hs) ← (if ti = 1 then do
-      let n ← readU 32 32
-      let t ← readU 32 32
-      let pp ← readBit
-      let nt ← (if pp = 1 then readUe else pure 0)
-      let nh ← readUe16
-      let hs ← vpsHrdLoop cfg msl nh 0
-      pure (n, t, pp, nt, nh, hs)
-    else pure (0, 0, 0, 0, 0, []))
+  let (ti, n, t, pp, nt, nh, hs) ← vpsTiming cfg msl
   let ext ← readBit
   pure { nal := nal, vpsVideoParameterSetId := vid, vpsBaseLayerInternalFlag := bli, vpsBaseLayerAvailableFlag := bla,
          vpsMaxLayersMinus1 := ml, vpsMaxSubLayersMinus1 := msl, vpsTemporalIdNestingFlag := nest, ptl := p,
